@@ -40,3 +40,10 @@ namespace NASim.PyRt
 /-- `math.ceil(a / b)` for naturals (the true division is exact enough for every size a double represents) -/
 def ceilDiv (a b : Nat) : Nat := (a + b - 1) / b
 end NASim.PyRt
+
+namespace NASim.PyRt
+/-- `np.zeros((r, c))` as an integer matrix -/
+def zerosI (r c : Nat) : List (List Int) := List.replicate r (List.replicate c 0)
+/-- `t[i][j] = 1` -/
+def wr (t : List (List Int)) (i j : Nat) : List (List Int) := t.set i ((t.getD i []).set j 1)
+end NASim.PyRt
